@@ -8,6 +8,11 @@ package main
 //                         non-nil error sits in a branch that calls `c.main.rollback(...)`
 //   rollbackRestores      what (*Code).rollback assigns / which method of the symbol table it calls
 //   truncateRestores      what (*SymbolTable).truncate assigns / deletes from
+//   truncateDeleteGuarded every `delete(t.symbolsByName, s.name)` of (*SymbolTable).truncate sits directly under
+//                         `if t.symbolsByName[s.name] == s` (s the removed symbol the loop is at): a removed BLOCK symbol
+//                         must not take the name of a live global with it
+//   compilerStateFields   every field of the structs Compiler, Code and SymbolTable ("Struct.field", sorted): the state a
+//                         rejected piece could leave something in; Tables.lean classifies each (`compilerStateReviewed`)
 //   runStartsOnEmptyStack runCodeInternal, under `if !resetState`, pops the operand stack empty (`for vm.sp >= 0 { vm.pop() }`)
 //                         before the entrypoint is activated
 //   reloadCopiesGlobals   reloadCode copies the old globals into the freshly loaded main code
@@ -381,8 +386,84 @@ func c18_genC18(repo string) string {
 		sort.Strings(out)
 		return out
 	}
-	rollbackRestores := restoresOf(c18FindFuncOpt(parse("compiler/code.go"), "Code", "rollback"), "c")
-	truncateRestores := restoresOf(c18FindFuncOpt(parse("compiler/symbol_table.go"), "SymbolTable", "truncate"), "t")
+	codeFile, symFile := parse("compiler/code.go"), parse("compiler/symbol_table.go")
+	rollbackRestores := restoresOf(c18FindFuncOpt(codeFile, "Code", "rollback"), "c")
+	truncFn := c18FindFuncOpt(symFile, "SymbolTable", "truncate")
+	truncateRestores := restoresOf(truncFn, "t")
+	// --- truncate: the deletion of a name is guarded by the identity of the entry
+	deletes, guardedDeletes := 0, 0
+	if truncFn != nil {
+		var walkDel func(n ast.Node, loopVar string, guarded bool)
+		walkDel = func(n ast.Node, loopVar string, guarded bool) {
+			ast.Inspect(n, func(m ast.Node) bool {
+				switch x := m.(type) {
+				case *ast.RangeStmt:
+					if m == n {
+						return true
+					}
+					lv := loopVar
+					if x.Value != nil {
+						lv = c18Expr(fset, x.Value)
+					}
+					walkDel(x.Body, lv, false)
+					return false
+				case *ast.IfStmt:
+					if m == n {
+						return true
+					}
+					cond := strings.ReplaceAll(c18Expr(fset, x.Cond), " ", "")
+					g := loopVar != "" && x.Init == nil && (cond == "t.symbolsByName["+loopVar+".name]=="+loopVar || cond == loopVar+"==t.symbolsByName["+loopVar+".name]")
+					walkDel(x.Body, loopVar, g)
+					if x.Else != nil {
+						walkDel(x.Else, loopVar, false)
+					}
+					return false
+				case *ast.CallExpr:
+					if c18Expr(fset, x.Fun) == "delete" && len(x.Args) == 2 && c18Expr(fset, x.Args[0]) == "t.symbolsByName" {
+						deletes++
+						if guarded && c18Expr(fset, x.Args[1]) == loopVar+".name" {
+							guardedDeletes++
+						}
+					}
+				}
+				return true
+			})
+		}
+		walkDel(truncFn.Body, "", false)
+	}
+	deleteGuarded := deletes > 0 && deletes == guardedDeletes
+	// --- the state-carrying structs of the compiler, field by field
+	var stateFields []string
+	for _, sf := range []struct {
+		f    *ast.File
+		name string
+	}{{compFile, "Compiler"}, {codeFile, "Code"}, {symFile, "SymbolTable"}} {
+		for _, d := range sf.f.Decls {
+			gd, ok := d.(*ast.GenDecl)
+			if !ok {
+				continue
+			}
+			for _, sp := range gd.Specs {
+				ts, ok := sp.(*ast.TypeSpec)
+				if !ok || ts.Name.Name != sf.name {
+					continue
+				}
+				st, ok := ts.Type.(*ast.StructType)
+				if !ok {
+					continue
+				}
+				for _, fl := range st.Fields.List {
+					if len(fl.Names) == 0 {
+						stateFields = append(stateFields, sf.name+"."+c18Expr(fset, fl.Type))
+					}
+					for _, nm := range fl.Names {
+						stateFields = append(stateFields, sf.name+"."+nm.Name)
+					}
+				}
+			}
+		}
+	}
+	sort.Strings(stateFields)
 	// --- runCodeInternal drops the previous run's operands before it resumes
 	dropsStack := false
 	activated := false
@@ -429,6 +510,8 @@ func c18_genC18(repo string) string {
 	s += "/-- (*Compiler).Compile takes c.main.mark() first and every error return follows c.main.rollback(mark) (error returns: " + strconv.Itoa(errReturns) + ") -/\ndef compileRollsBackOnError : Bool := " + b(rollsBack) + "\n\n"
 	s += "/-- what (*Code).rollback assigns and calls -/\ndef rollbackRestores : List String := " + q(rollbackRestores) + "\n\n"
 	s += "/-- what (*SymbolTable).truncate assigns and deletes from -/\ndef truncateRestores : List String := " + q(truncateRestores) + "\n\n"
+	s += "/-- every deletion from t.symbolsByName in (*SymbolTable).truncate is under `if t.symbolsByName[s.name] == s` (deletions: " + strconv.Itoa(deletes) + ") -/\ndef truncateDeleteGuarded : Bool := " + b(deleteGuarded) + "\n\n"
+	s += "/-- the fields of the structs Compiler, Code and SymbolTable -/\ndef compilerStateFields : List String := " + q(stateFields) + "\n\n"
 	s += "/-- runCodeInternal empties the operand stack under `if !resetState` before activating the entrypoint -/\ndef runStartsOnEmptyStack : Bool := " + b(dropsStack) + "\n\n"
 	s += "/-- per compile-only field of compiler.go: every compile function that sets it resets it in a deferred function -/\ndef compileOnlyRestores : List (String × Bool) := [" + strings.Join(restorePairs, ", ") + "]\n\n"
 	s += "/-- (*VirtualMachine).start clears vm.halt unconditionally (top level of its body) -/\ndef startClearsHaltUnconditionally : Bool := " + b(clearsHalt) + "\n\n"
